@@ -69,6 +69,23 @@ def slice_range(e, alg, total):
     return None
 
 
+def chain_names(x):
+    """method names of a call chain from the base outwards, and the base"""
+    names = []
+    while x.get("k") == "mcall":
+        names.append(x["name"])
+        x = x["recv"]
+    return list(reversed(names)), x
+
+
+def need_chain(x, allowed, what):
+    """the chain must be one of the allowed adaptor sequences: any other adaptor (a second skip, rev, step_by, ..) changes which elements are visited"""
+    names, base = chain_names(x)
+    if names not in allowed:
+        raise ir.AnchorMissing("resample_unit: %s iterates `%s`; recognised forms: %s" % (what, ".".join(names), [".".join(a_) for a_ in allowed]))
+    return names, base
+
+
 def analyse(facts):
     """Returns dict with: events (ordered), violations, lengths, new_len piecewise, structure facts."""
     fn = facts.need_method("FftResampler", "resample_unit")
@@ -172,18 +189,14 @@ def analyse(facts):
                     base = slice_range(x, alg, total)
                     if base is not None and base[0] in cov:
                         lo, hi = base[1], base[2]
-                        skip = take = None
+                        # adaptors in the order they apply: skip(a) moves the start, take(b) caps the end
                         for c in reversed(chain):
-                            if c["name"] == "skip":
-                                skip = alg.conv(c["args"][0])
-                            elif c["name"] == "take":
-                                take = alg.conv(c["args"][0])
-                            elif c["name"] != "iter_mut":
+                            if c["name"] == "skip" and len(c["args"]) == 1:
+                                lo = lo + alg.conv(c["args"][0])
+                            elif c["name"] == "take" and len(c["args"]) == 1:
+                                hi = lo + alg.conv(c["args"][0])
+                            elif c["name"] != "iter_mut" or c["args"]:
                                 raise ir.AnchorMissing("resample_unit: adapter %s in fill loop" % c["name"])
-                        if skip is not None:
-                            lo = lo + skip
-                        if take is not None:
-                            hi = lo + take
                         write(base[0], lo, hi, e, "fill with %s" % show(asg["r"]))
                         continue
                 # output loop: for (n, item) in wave_out.iter_mut().enumerate().take(K) { *item = self.output_buf[n] + overlap[n] }
@@ -195,6 +208,7 @@ def analyse(facts):
                             take = alg.conv(x["args"][0])
                         x = x["recv"]
                     if is_path(x, wave_out):
+                        need_chain(it, (["iter_mut", "enumerate", "take"], ["iter_mut", "enumerate"]), "the output loop")
                         out_write = {"take": take, "rhs": asg["r"], "idx": names[0], "node": e}
                         for r in walk(asg["r"]):
                             if r.get("k") == "index" and is_self_field(r["e"]) and r["e"]["name"] in cov:
@@ -224,6 +238,8 @@ def analyse(facts):
                     x = x["recv"]
                 base = slice_range(x, alg, total)
                 if base is not None and base[0] in cov:
+                    need_chain(it["recv"], (["iter_mut"], ["iter_mut", "take"]), "the filter multiply")
+                    need_chain(it["args"][0], (["iter"],), "the filter spectrum in the multiply")
                     hi = base[2] if take is None else base[1] + take
                     read(base[0], base[1], hi, e, "multiply by filter spectrum")
                     scale = {"take": hi - base[1], "zipped": show(it["args"][0]), "node": e}
@@ -288,6 +304,9 @@ def analyse(facts):
                     zipped = x["args"][0]
                 x = x["recv"]
             if is_self_field(x) and x["name"] in cov:
+                need_chain(e["recv"], (["iter_mut", "take", "zip"], ["iter_mut", "zip"]), "the filter multiply")
+                if zipped is not None:
+                    need_chain(zipped, (["iter"],), "the filter spectrum in the multiply")
                 cl = e["args"][0]
                 body = cl["body"]
                 if body.get("k") == "block" and len(body["stmts"]) == 1:
